@@ -2,6 +2,10 @@ package checks
 
 import (
 	"fmt"
+	"strconv"
+	"strings"
+
+	"verif/internal/jsonx"
 
 	"verif/internal/docgen"
 	"verif/internal/model"
@@ -31,6 +35,7 @@ type semSpec struct {
 	extra    func(ctx *Ctx, i int, r *sg.Rng) *sem.Case // optional stratified cases (i counts from 0; nil = stop)
 	args     func(r *sg.Rng) []string
 	intLim   bool
+	parity   bool
 }
 
 var commonAssumptions = []string{
@@ -70,7 +75,7 @@ func runSem(ctx *Ctx, sp *semSpec) (*Outcome, error) {
 		cases = append(cases, c)
 	}
 	cfg := &sem.Config{Prop: sp.id, Tier: ctx.Tier, Seed: ctx.Seed, Cases: cases, Classes: sp.classes, Valid: sp.valid, PerSite: sp.perSite, MaxDocs: sp.maxDocs,
-		Modes: sp.modes, Values: sp.values, ByValue: sp.byValue, Defaults: sp.defaults, AddProps: sp.addProps, Env: ctx.Env, Own: sp.own, IntLim: sp.intLim}
+		Modes: sp.modes, Values: sp.values, ByValue: sp.byValue, Defaults: sp.defaults, AddProps: sp.addProps, Env: ctx.Env, Own: sp.own, IntLim: sp.intLim, Parity: sp.parity}
 	if cfg.Valid == 0 {
 		cfg.Valid = 4
 	}
@@ -142,4 +147,62 @@ func init() {
 		nQuick: 400, nThor: 6000, valid: 3, perSite: 3, maxDocs: 120, minDec: 2000,
 		rule: "optional properties with a default (string, integer, number, boolean, array of scalars, enums) alone/next to required siblings/in nested objects; documents with the key absent, null, present with the zero value, present with another value; decoded field (via re-marshal) must equal the default resp. the document value",
 	})
+}
+
+func modelAccept(s *sg.Schema, v any) bool { return model.Eval(s, v, nil).V == model.Accept }
+
+func init() {
+	regSem(&semSpec{id: "C17",
+		opts:    sg.Opts{MaxDepth: 3, PNullable: 0.25, PDefault: 0.35, PAddProps: 0.25, W: map[string]float64{"compose": 1.5}},
+		classes: docgen.Classes{"required": true, "bound": true, "string": true, "enum": true, "items": true, "default": true, "delopt": true, "nullok": true},
+		own: func(d docgen.Doc, mr model.Result) bool {
+			if mr.V == model.Accept {
+				return true
+			}
+			// exactly one violated rule of the kinds the statement names
+			if len(mr.Faults) != 1 {
+				return false
+			}
+			switch mr.Faults[0].Rule {
+			case "required", "minimum", "maximum", "exclusiveMinimum", "exclusiveMaximum", "multipleOf", "minLength", "maxLength", "pattern":
+				return true
+			case "enum":
+				// only string non-members of string enums: other JSON types are type faults (yaml.v3 coerces scalars)
+				v, ok := docgen.Get(d.V, pointerPath(d.V, mr.Faults[0].Path))
+				_, isStr := v.(string)
+				return ok && isStr
+			}
+			return false
+		},
+		modes: []string{"json", "yaml", "yamlblock"}, parity: true,
+		args:   func(r *sg.Rng) []string { return []string{"--extra-imports"} },
+		nQuick: 350, nThor: 6000, valid: 4, perSite: 3, maxDocs: 90, minDec: 5000,
+		rule: "schemas over the supported feature space generated with --extra-imports; every valid document and every document violating exactly one required/bound/multipleOf/length/pattern/enum rule is decoded through json.Unmarshal, yaml.Unmarshal of the same text, and yaml.Unmarshal of a block-style YAML rendering; verdicts and json.Marshal of the decoded values must be identical; type-fault documents are out of scope (yaml.v3 coerces scalars, DESIGN §3.13)",
+	})
+}
+
+// pointerPath converts a "/a/0/b" path of the model into docgen path elements (array indexes as ints).
+func pointerPath(doc any, p string) []any {
+	var out []any
+	cur := doc
+	for _, seg := range strings.Split(strings.TrimPrefix(p, "/"), "/") {
+		if seg == "" {
+			continue
+		}
+		switch t := cur.(type) {
+		case []any:
+			i, err := strconv.Atoi(seg)
+			if err != nil || i >= len(t) {
+				return out
+			}
+			out = append(out, i)
+			cur = t[i]
+		case jsonx.Obj:
+			out = append(out, seg)
+			cur, _ = t.Get(seg)
+		default:
+			return out
+		}
+	}
+	return out
 }
